@@ -77,6 +77,18 @@ func (u *Unit) smtHeader(ncmds int) string {
 	for _, a := range strAxioms(u.features, u.usesQuant) {
 		sb.WriteString("(assert " + a + ")\n")
 	}
+	// user axioms (assumed lemmas): only those whose theory symbols the unit uses
+	for _, a := range u.axiomFacts {
+		need := true
+		for sym, feat := range map[string]string{"s.lt": "strlt", "s.prefix": "strprefix", "s.cat": "strcat", "s.sub": "strsub"} {
+			if strings.Contains(a, "("+sym+" ") && !u.features[feat] {
+				need = false
+			}
+		}
+		if need {
+			sb.WriteString("(assert " + a + ")\n")
+		}
+	}
 	return sb.String()
 }
 
